@@ -393,6 +393,117 @@ theorem oneof_membership (version : Name) (ctx : Addr) (f : FieldView) (d : Decl
   · rw [hm] at hm'; cases hm'
   · exact ⟨_, _, _, _, _, rfl⟩
 
+/-! ## Schema loading: oneof membership, late resolution, proto-plus packages -/
+
+/-- **A field's oneof is the declaration its index points at — whatever the number of members of that
+    oneof** (a real oneof with a single member is still a oneof; a proto3-optional field gets its
+    synthetic oneof the same way). -/
+theorem oneof_name_lookup (decls : List Name) (i : Nat) (h : i < decls.length) :
+    oneofName decls (some i) = some decls[i] := by
+  cases decls with
+  | nil => simp at h
+  | cons d ds => simp [oneofName]
+
+/-- no index, no oneof -/
+theorem oneof_name_none (decls : List Name) : oneofName decls none = none := by
+  cases decls <;> rfl
+
+/-- **Oneof membership is preserved**: two fields get the same `Field.oneof` exactly when the descriptor
+    puts them in the same oneof (protoc guarantees distinct oneof names per message). -/
+theorem oneof_membership_preserved (decls : List Name) (hnd : decls.Nodup) (i j : Nat)
+    (hi : i < decls.length) (hj : j < decls.length) :
+    oneofName decls (some i) = oneofName decls (some j) ↔ i = j := by
+  rw [oneof_name_lookup decls i hi, oneof_name_lookup decls j hj]
+  constructor
+  · intro h
+    have he : decls[i] = decls[j] := Option.some.inj h
+    have hp := List.pairwise_iff_getElem.mp hnd
+    rcases Nat.lt_trichotomy i j with hlt | heq | hgt
+    · exact absurd he (hp i j hi hj hlt)
+    · exact heq
+    · exact absurd he.symm (hp j i hj hi hgt)
+  · rintro rfl; rfl
+
+example : oneofName [['p','i','c','k'], ['_','o','p','t']] (some 0) = some ['p','i','c','k'] ∧
+    oneofName [['p','i','c','k'], ['_','o','p','t']] (some 1) = some ['_','o','p','t'] ∧
+    oneofName [] (some 0) = none := by decide
+
+/-- **Forward, backward and recursive references resolve alike**: what a field's type name resolves to does
+    not depend on how much of the file was loaded when the field was wrapped (the orphan-field pass picks up
+    the rest), as long as full names are unique — which protoc guarantees. -/
+theorem resolution_order_irrelevant (loaded fileAll all : Known) (tn : List Name)
+    (hl : ∀ r, lookupKnown loaded tn = some r → lookupKnown all tn = some r)
+    (hf : ∀ r, lookupKnown fileAll tn = some r → lookupKnown all tn = some r)
+    (hcover : ∀ r, lookupKnown all tn = some r → lookupKnown loaded tn = some r ∨ lookupKnown fileAll tn = some r) :
+    resolveField loaded fileAll tn = lookupKnown all tn := by
+  unfold resolveField
+  cases h1 : lookupKnown loaded tn with
+  | some r => simp [hl r h1]
+  | none =>
+    cases h2 : lookupKnown fileAll tn with
+    | some r => simp [hf r h2]
+    | none =>
+      cases h3 : lookupKnown all tn with
+      | none => rfl
+      | some r =>
+        rcases hcover r h3 with h | h
+        · rw [h1] at h; cases h
+        · rw [h2] at h; cases h
+
+/-- hypotheses of `resolution_order_irrelevant` at a forward reference: nothing loaded yet, the orphan
+    pass finds the message declared later in the file -/
+example :
+    let all : Known := [([['p'], ['A']], false), ([['p'], ['B']], false), ([['p'], ['K']], true)]
+    resolveField [] all [['p'], ['B']] = some ([['p'], ['B']], false) ∧
+    resolveField [([['p'], ['K']], true)] all [['p'], ['K']] = lookupKnown all [['p'], ['K']] := by decide
+
+section Aux
+theorem joinDots_prefix (a b : List Name) : joinDots a <+: joinDots (a ++ b) := by
+  induction a with
+  | nil => simp [joinDots]
+  | cons x r ih =>
+    cases r with
+    | nil =>
+      cases b with
+      | nil => simp [joinDots]
+      | cons y b' => simp [joinDots]
+    | cons y r' =>
+      simp only [List.cons_append, joinDots] at ih ⊢
+      exact List.prefix_append_right_inj x |>.mpr (List.cons_prefix_cons.mpr ⟨rfl, ih⟩)
+end Aux
+
+/-- every (sub-)package of the API's own package and every package listed in `proto-plus-deps` is a
+    proto-plus package: its fields get the reserved-word suffix and its types are imported from `…types` -/
+theorem proto_plus_packages (apiSegs sub : List Name) (deps : List Name) (pkg : List Name) :
+    isProtoPlus (joinDots apiSegs) deps (apiSegs ++ sub) = true ∧
+    (joinDots pkg ∈ deps → isProtoPlus (joinDots apiSegs) deps pkg = true) := by
+  constructor
+  · simp [isProtoPlus, List.isPrefixOf_iff_prefix, joinDots_prefix]
+  · intro h; simp [isProtoPlus, h]
+
+/-- the test is a STRING prefix test: a dependency package `acme.lib.v1beta` counts as part of the API
+    `acme.lib.v1` (observation about the code; such a dependency is an excluded point of the check) -/
+theorem proto_plus_prefix_quirk :
+    isProtoPlus ['a','.','v','1'] [] [['a'], ['v','1','b']] = true ∧
+    isProtoPlus ['a','.','v','1'] [] [['a'], ['v','2']] = false := by decide
+
+/-- **A type of the API's own (sub-)package is imported from where the types template is written**:
+    `<namespace>/<name>_<version>/<sub…>/types` -/
+theorem python_import_target_layout (apiSegs apiRoot sub : List Name) (deps : List Name) (a : Addr)
+    (h : a.package = apiSegs ++ sub) :
+    pythonImportPackage (joinDots apiSegs) apiSegs apiRoot deps a = apiRoot ++ sub ++ ["types".toList] := by
+  simp [pythonImportPackage, h, List.isPrefixOf_iff_prefix, joinDots_prefix]
+
+/-- a proto-plus dependency `acme.dep.v1` is imported from `acme.dep_v1.types`, a *_pb2 dependency from its
+    own package -/
+example :
+    let dep : Addr := ⟨[['a'], ['d'], ['v','1']], ['m'], [], ['T'], true, false⟩
+    let wkt : Addr := ⟨[['g'], ['p']], ['t'], [], ['T'], false, false⟩
+    pythonImportPackage ['a','.','l','.','v','1'] [['a'], ['l'], ['v','1']] [['a'], ['l','_','v','1']] [['a','.','d','.','v','1']] dep
+      = [['a'], ['d','_','v','1'], ['t','y','p','e','s']] ∧
+    pythonImportPackage ['a','.','l','.','v','1'] [['a'], ['l'], ['v','1']] [['a'], ['l','_','v','1']] [['a','.','d','.','v','1']] wkt
+      = [['g'], ['p']] := by decide
+
 /-! ## Enums -/
 
 /-- **Enum values are preserved** as a multiset of (name, number) — proto-plus sorts them by number —
